@@ -541,8 +541,10 @@ time_t vf_time(time_t *t) {
 }
 
 int vf_clock_gettime(clockid_t c, struct timespec *ts) {
-	(void) c;
-	ts->tv_sec = (time_t) (EPOCH_BASE + now_us / 1000000ULL);
+	/* the wall clock counts from the epoch, the monotonic clocks from boot (here: 3 h 25 min before the case began) - code
+	 * that mixes the two must not get away with it */
+	uint64_t base = (c == CLOCK_REALTIME || c == CLOCK_REALTIME_COARSE || c == CLOCK_TAI) ? EPOCH_BASE : 12300ULL;
+	ts->tv_sec = (time_t) (base + now_us / 1000000ULL);
 	ts->tv_nsec = (long) ((now_us % 1000000ULL) * 1000ULL);
 	return 0;
 }
